@@ -374,7 +374,13 @@ def check_transmission(case):
     # which choppers has a neutron reaching D passed?  the program chops all choppers in distance order,
     # FrameSequence[D] takes the last frame with distance <= D
     # (tolerant comparison: a distance given in cm and converted back may differ by an ulp)
-    passed = [sp for sp in b.spec if sp[0] <= D * (1 + 1e-12) + 1e-300]
+    # A chopper whose distance equals D counts (boundary of "<="); one whose distance differs from
+    # D by rounding only (190 cm vs 1.9 m) is on whichever side the conversion puts it: undecided.
+    for sp, ch in zip(b.spec, b.choppers, strict=True):
+        for d in (sp[0], float(ch.distance.to(unit="m", dtype="float64").value)):
+            if d != D and abs(d - D) <= 1e-9 * max(abs(D), 1e-300):
+                return [*labs, "lookup-within-rounding-of-chopper:skip"], False
+    passed = [sp for sp in b.spec if sp[0] <= D]
     if case["lookup"] is not None:
         # frames appended by propagate_to beyond D are ignored by the lookup; choppers at d <= D all count
         pass
